@@ -117,6 +117,27 @@ def remap_params(dw, aw, origin, size, regions, addressing="word"):
     return p
 
 
+def ref_remap(dw, aw, origin, size, regions, addressing="word"):
+    """Intended address map of the Remapper, written from its docstring (origin offset + mask, then the
+    region-to-region translation, last matching region wins), on word addresses.  No signal widths involved."""
+    nb = dw // 8
+    shift = log2i(nb) if addressing == "word" else 0
+    if size is None:
+        size = 2 ** (aw + log2i(nb))
+    mask = (1 << (int(size).bit_length() - 1 - shift)) - 1 if shift <= int(size).bit_length() - 1 else 0
+    adr_bits = aw if addressing == "word" else aw + log2i(nb)
+
+    def f(a):
+        r = (origin >> shift) | (a & mask)
+        out = r
+        byte = r << shift
+        for so, sz, do in regions:
+            if so <= byte < so + sz:
+                out = (do + byte - so) >> shift
+        return out & ((1 << adr_bits) - 1)
+    return f
+
+
 def build_wb2csr(dw, aw, register, caw=14):
     top = Top()
     top.master = wishbone.Interface(data_width=dw, adr_width=aw)
